@@ -412,7 +412,13 @@ def work_done_before(obs, sc):
     text = st.get('log_at_fault')
     if text is None:
         return None
+    # The fault is delivered a moment AFTER the log was seen to reach the chosen length: the doer may have executed more commands in
+    # between (false alarm seen once: SIGKILL 'after command k' landed after the final marker had been echoed - a complete, correctly
+    # reported sync).  What counts is what the doer had executed when it really stopped: its command log as it is after the run.
+    final = [l for l in (obs.get('cmd_lines') or []) if l.strip()]
     kinds = [cmd_kind(l) for l in text.splitlines() if l.strip()]
+    if len(final) > len(kinds):
+        kinds = [cmd_kind(l) for l in final]
     if 'Shutdown' in kinds:
         return True
     if sc['side'] == 'dest':
